@@ -51,8 +51,8 @@ type InstCfg struct {
 	ReopenEachOp bool               `json:"reopen"`  // close + reopen with a fresh cache manager after every write
 	Schema       models.IndexSchema `json:"schema"`
 	MaxPointSize int                `json:"maxPointSize"`
-	SeedStart    bool               `json:"seedStart"` // pre-write a fixed Vamana entry vector (owns the one RNG of the index)
-	Proxy        bool               `json:"proxy"`     // install the storage proxy (late-use detection, faults, crash images)
+	SeedStart    bool               `json:"seedStart"`        // pre-write a fixed Vamana entry vector (owns the one RNG of the index)
+	Proxy        bool               `json:"proxy"`            // install the storage proxy (late-use detection, faults, crash images)
 }
 
 // Inst is a live shard.
@@ -111,6 +111,7 @@ func (in *Inst) open() error {
 	if in.Cfg.Proxy {
 		s.VerifWrapStore(func(d diskstore.DiskStore) diskstore.DiskStore {
 			in.Proxy = faultx.Wrap(d)
+			in.Proxy.Poison = os.Getenv("VERIF_POISON") != "0" // on by default: what the store hands out dies with its transaction
 			return in.Proxy
 		})
 	}
